@@ -24,8 +24,11 @@ HASH_SENSITIVE = False
 NAMES = ['a', 'b', 'c', 'd']
 SCALARS = [0, 1, 2, 3, 5, 13, 's', 't', None]
 CONTAINERS = [[1, 2], [], {'k': [1]}, [[3]], {'p': 1, 'q': 2}]
-TRY_VALUES = ['none', 'nan', 'zero', 'false', 'true', 'list']
+TRY_VALUES = ['none', 'nan', 'zero', 'false', 'true', 'list', 'dict']
 POOL = 8
+
+
+INVALID = ('invalid-call',)
 
 
 class SimFError(Exception):
@@ -53,6 +56,8 @@ def generate(st):
             s['m'] = sw.choice([0, 1, 2, 3, 5])
         else:
             s['arm'] = 'on13' if (faulty and sw.random() < 0.7) else 'never'
+        # what f returns: usually a canonical record of what it received; for some argument values a falsy result
+        s['ret'] = sw.choice(['canon', 'canon', 'none_some', 'zero_some', 'emptylist_some'])
         funcs.append(s)
     decs = ['try', 'back', 'kws', 'cache', 'loop', 'pd2np']
     if retry:
@@ -208,10 +213,20 @@ def _make_funcs(fid, s, ledger):
         ledger.append({'fid': fid, 'raised': raised, 'n': state['calls']})
         if raised:
             raise SimFError('f%d armed' % fid)
-        return ('R', fid, tuple(named), tuple(varargs), tuple(kwitems))
+        return _ret(s, fid, tuple(named), tuple(varargs), tuple(kwitems))
     ns = {'body': body}
     exec(src, ns)
     return ns['f'], ns['twin']
+
+
+def _ret(s, fid, named, varargs, kwitems):
+    mode = s.get('ret', 'canon')
+    if mode != 'canon':
+        vals = list(named) + list(varargs)
+        first = vals[0] if vals else None
+        if first in (0, 1, None) and not isinstance(first, bool):
+            return {'none_some': None, 'zero_some': 0, 'emptylist_some': []}[mode]
+    return ('R', fid, named, varargs, kwitems)
 
 
 def _has13(v):
@@ -227,7 +242,7 @@ def _expected_value(fid, s, twin, args, kwargs):
     try:
         ba = inspect.signature(twin).bind(*args, **kwargs)
     except TypeError:
-        return None
+        return INVALID
     ba.apply_defaults()
     named = tuple(ba.arguments[n] for n in NAMES[:s['npos']])
     varargs = tuple(ba.arguments.get('args', ())) if s['varargs'] else ()
@@ -235,7 +250,7 @@ def _expected_value(fid, s, twin, args, kwargs):
     vals = list(named) + list(varargs) + [v for _, v in kwitems]
     if s.get('arm') == 'on13' and any(_has13(v) for v in vals):
         return 'raise'
-    return ('R', fid, named, varargs, kwitems)
+    return _ret(s, fid, named, varargs, kwitems)
 
 
 def _freeze(v):
@@ -262,7 +277,7 @@ def _deep_same(a, b):
     return a == b
 
 
-FALLBACK = {'none': None, 'nan': float('nan'), 'zero': 0, 'false': False, 'true': True, 'list': []}
+FALLBACK = {'none': None, 'nan': float('nan'), 'zero': 0, 'false': False, 'true': True, 'list': [], 'dict': {}}
 
 
 # ----------------------------------------------------------------------------------------------
@@ -293,8 +308,8 @@ def execute(trace, ctx=None):
     def build(dec_, target):
         t = dec_['t']
         if t == 'try':
-            if 'repeat' in dec_:
-                return try_value(repeat=dec_['repeat'], sleep=dec_.get('sleep', 0), value=_copy.copy(FALLBACK[dec_['value']]))(target)
+            if 'repeat' in dec_ or dec_['value'] == 'dict':
+                return try_value(repeat=dec_.get('repeat', 0), sleep=dec_.get('sleep', 0), value=_copy.copy(FALLBACK[dec_['value']]))(target)
             return TRY[dec_['value']](target)
         if t == 'back':
             return try_back(target)
@@ -361,7 +376,7 @@ def execute(trace, ctx=None):
         f, twin, s = funcs[fid]
         seen, ba, bkw = descend(o, args, kwargs)
         exp = _expected_value(fid, s, twin, ba, bkw)
-        if exp is None:
+        if exp is INVALID:
             return 'invalid'
         declared = NAMES[:s['npos']]
         # try_back's fallback is "the first argument": undefined when none is passed at that layer
@@ -445,6 +460,13 @@ def execute(trace, ctx=None):
             res.fault('f_raises')
             if not _deep_same(r, want):
                 raise Violation('fallback', 'object%s: f raises for %r %r; got %r, expected the fallback %r' % (types, args, kwargs, r, want), k)
+            # the caller owns what it was handed: it may well edit a list/dict fallback; the next fallback must be unaffected
+            if isinstance(r, list) and r == [] and outcome[0] == 'fallback' and _is_try_fallback(o, seen, declared):
+                r.append('edited-by-caller')
+                res.probe('caller-edits-mutable-fallback')
+            elif isinstance(r, dict) and r == {} and outcome[0] == 'fallback' and _is_try_fallback(o, seen, declared):
+                r['edited-by-caller'] = 1
+                res.probe('caller-edits-mutable-fallback')
             return 'ok'
         if not _deep_same(r, want):
             cls = 'kwargs-support' if 'kws' in types and (set(kwargs) - set(declared)) else 'not-transparent'
@@ -460,6 +482,8 @@ def execute(trace, ctx=None):
                 res.probe('multi-keyword-call')
             if key in o['seen']:
                 res.probe('cache-hit')
+                if not r and r is not False:
+                    res.probe('falsy-result-cached')
                 if n_ok != 0:
                     raise Violation('evaluated-more-than-once', 'object%s: %r %r was already computed by this cached function, f was evaluated again' % (types, args, kwargs), k)
                 if r is not o['seen'][key]:
@@ -591,6 +615,19 @@ def execute(trace, ctx=None):
     return res
 
 
+def _is_try_fallback(o, seen, declared):
+    """the fallback came from a try_value layer (not from try_back, whose fallback is the caller's own argument) and no
+    cache layer holds on to it (a cached object that the caller edits is legitimately returned edited)"""
+    if any(l['t'] == 'cache' for l in o['chain']):
+        return False
+    for l in reversed(o['chain']):
+        if l['t'] == 'try':
+            return True
+        if l['t'] == 'back':
+            return False
+    return False
+
+
 def _unhashable_marker(v):
     return isinstance(v, (list, dict))
 
@@ -682,7 +719,7 @@ def signature(trace, violation):
 
 PROBES = ['cache-hit', 'cache-hit-after-rewrap', 'multi-keyword-call', 'unhashable-argument', 'fallback-taken', 'retry-then-success',
           'same-decorator-through-chain', 'same-decorator-directly', 'clear_cache', 'argspec-checked', 'getcallargs-checked',
-          'call_with_callargs-checked', 'pd2np-without-first-argument']
+          'call_with_callargs-checked', 'pd2np-without-first-argument', 'caller-edits-mutable-fallback', 'falsy-result-cached']
 TIERS = {'quick': {'runs': 30000, 'wallcap': 50}, 'thorough': {'runs': 1500000, 'wallcap': 800}}
 COMPONENTS = {
     'real': ['pyg_base._decorators wrapper / try_value / try_back / kwargs_support', 'pyg_base._cache cache_func', 'pyg_base._loop loops (non-container input) / pd2np (non-pandas input)',
